@@ -488,7 +488,7 @@ func (t TimeSpan) DivideBigInt(other *BigInt) (TimeSpan, Value) {
 		return 0, Ref(NewZeroDivisionError())
 	}
 	newBig := big.NewInt(int64(t))
-	result := ToElkBigInt(newBig.Div(newBig, other.ToGoBigInt()))
+	result := ToElkBigInt(newBig.Quo(newBig, other.ToGoBigInt()))
 	return TimeSpan(result.ToSmallInt()), Undefined
 }
 
